@@ -1097,6 +1097,10 @@ class C04(Prop):
                 argkind = rng.choice(["obj", "obj", "arr", "map", "str", "int"])
                 if conf.startswith("noeh"):
                     hc = 0
+                else:
+                    # (a handler that fails makes the driver print its own trace; /c04/master.c answers object_name by calling back
+                    # into the program - its cost per traced object is the program's, not a constant the oracle could allow for)
+                    hc = min(hc, 1)
             return machine_case(cid, root, cost, depth, stack, hc, {"origin": "generated"}, self.idx_or_default(), via, conf=conf, argkind=argkind)
         return self.mk(cid, Node("C", kids=[Node("C", kids=[Node("S")])]), origin="generated")
 
